@@ -470,4 +470,10 @@ def rule_entry_collectors(ctx):
         ctx.add("COLLECT", "UserGuide::%s:nothing-else" % name, ok_other, site, "entries of another kind leave the result unchanged")
 
 
-RULES = [rule_enforcement, rule_ensure_templates, rule_graphs, rule_entry_collectors]
+def rule_cli_flags(ctx):
+    """the tightness check is waived by --bypass-tightness only: the flag is true exactly when the user wrote it"""
+    from .. import collect as _collect
+    _collect.check_cli_flags(ctx, "CLI", ctx.facts, ["bypass_tightness"])
+
+
+RULES = [rule_enforcement, rule_ensure_templates, rule_graphs, rule_entry_collectors, rule_cli_flags]
